@@ -34,6 +34,9 @@ def gen_bundle(rng, k, tier):
     b = {"lay": lay, "assets": assets, "parse": parse, "cases": {}, "rows": {}, "rowmaps": {}, "order": {}, "k": k}
     for a in parse:
         c0 = l1.sheet_case(rng, n_max=10 if tier == "quick" else 14, big=big, asset=a, accounts=(ne, nh))
+        if "crypto_fee" in lay["in"] and rng.chance(2):
+            # dust acquisition with a crypto fee (finding F14): fiat value of the acquisition below 5e-14
+            c0["ins"].append({"ts": list(c0["ins"][-1]["ts"]), "exch": 0, "holder": 0, "type": "BUY", "spot": 100000, "crypto_in": 1000, "crypto_fee": 1})
         c = l1.decorate(c0, lay, rng)
         order = l1.ORDERS[(k + (1 if a == "B2" else 0)) % 6]
         rows, rowmap, _ = l1.render(c, lay, rng, order=order)
@@ -236,7 +239,7 @@ def run(tier, build, replay=None):
     out = core.Outcome("C11", tier)
     proofs = core.check_proofs(build, "C11.v")
     rng = core.Rng(core.seed(), 11)
-    n = 420 if tier == "quick" else 16000
+    n = 5000 if tier == "quick" else 30000
     bundles = []
     if replay:
         bundles = [replay]
